@@ -7,7 +7,7 @@
     [C04_holds i o] is "the boolean specification [spec_ok_C04] accepts observation [o]"
     (Spec/QrReportSpec.v) — the same function that judges the observations of the C program. *)
 From Qv Require Import Common.Bytes Gen.GenQremote Model.QrEnvelope Spec.QrReportSpec Proofs.QrEnvelopeProofs.
-From Qv Require Model.TlsClient Model.QrConnect Spec.QrConnectSpec Proofs.QrConnectProofs.
+From Qv Require Gen.GenStarttls Model.TlsClient Model.QrConnect Spec.QrConnectSpec Proofs.TlsSwitchTotal Proofs.QrConnectProofs.
 
 (** 1. For EVERY script, recipient list (also none) and extension set: the run ends in exit(0)
     (main never returns), the status stream is a non-empty sequence of NUL-terminated reports, each
@@ -113,25 +113,25 @@ Print Assumptions C04_connect_fix_present.
     segmentation: no greeting, 4xx/5xx greeting, multi-line greeting with differing codes, malformed or
     over-long lines; close or silence at any point; EHLO refused then HELO; any STARTTLS outcome):
     the phase never gets stuck; if the process exits in it -- inside connect_mx(), by "can't connect
-    to any server", or by the pinned-certificate refusal -- at least one report was written and every
-    report starts with Z; if it hands a connection to send_envelope(), the status stream is still empty. *)
+    to any server", or by the pinned-certificate refusal -- EXACTLY ONE report was written, also on the
+    exits that go through quitmsg() (theorem 10), and it starts with Z; if it hands a connection to
+    send_envelope(), the status stream is still empty. *)
 Theorem C04_connect_reports : forall k,
   match QrConnect.connect_phase true true k with
-  | QrConnect.PExited s => TlsClient.s_rpt s <> [] /\ Forall QrConnectProofs.zword (TlsClient.s_rpt s)
+  | QrConnect.PExited s => exists w, TlsClient.s_rpt s = [w] /\ QrConnectProofs.zword w
   | QrConnect.PConnected _ _ s => TlsClient.s_rpt s = []
   | QrConnect.PStuck _ => False
   end.
 Proof. exact QrConnectProofs.connect_phase_reports. Qed.
 Print Assumptions C04_connect_reports.
 
-(** 7. From connect to exit: either the process exits in the connect phase with a non-empty sequence of
-    reports, or the envelope model takes over with an empty status stream and the negotiated extension
+(** 7. From connect to exit: either the process exits in the connect phase with exactly one report, or the envelope model takes over with an empty status stream and the negotiated extension
     set, and then (theorem 1, for every script, recipient list and message) the run ends in exit(0)
     with a non-empty sequence of well-formed reports.  (The envelope model is the clear-text one: for a
     connection inside TLS only the texts of the success report differ, successmsg[3..5].) *)
 Theorem C04_connect_to_exit : forall k,
   match QrConnect.connect_phase true true k with
-  | QrConnect.PExited s => TlsClient.s_rpt s <> [] /\ Forall QrConnectProofs.zword (TlsClient.s_rpt s)
+  | QrConnect.PExited s => exists w, TlsClient.s_rpt s = [w] /\ QrConnectProofs.zword w
   | QrConnect.PConnected _ ext s =>
       TlsClient.s_rpt s = [] /\
       forall i, i_ext i = Z.to_N ext ->
@@ -171,3 +171,35 @@ Theorem C04_connect_spec_holds : forall k,
   end.
 Proof. exact QrConnectProofs.run_q_spec. Qed.
 Print Assumptions C04_connect_spec_holds.
+
+(* ====================================================================================== *)
+(** * The QUIT exchange (qremote/qremote.c:quitmsg over lib/netio.c:net_read(0), loop_long) *)
+
+(** 10. loop_long() reads with the caller's fatal (false on a tree without fixes/C04-loop-long-fatal.diff). *)
+Theorem C04_loop_long_fix_present : GenStarttls.ST_LOOPLONG_PASSES_FATAL = true.
+Proof. exact QrConnectProofs.fix_loop_long. Qed.
+Print Assumptions C04_loop_long_fix_present.
+
+(** 11. quitmsg() never writes a report and never ends the process: for EVERY state of the program
+    (clear text or TLS, anything left in the line buffer) and EVERY behaviour of the server in the QUIT
+    exchange -- any bytes in any segmentation: a reply, a multi-line reply, garbage, an over-long line,
+    1500 octets that never see a CRLF; then close or silence -- it returns with the status stream as it
+    found it.  ([good]: the line buffer holds at most LINEINBUF - 2 octets, an invariant of net_read.)
+    Every net_conn_shutdown(shutdown_clean) of Qremote -- behind the K/Z/D report of the envelope
+    phase, behind "Z4.5.0" of tls_init() and of the pinned-host refusal -- goes through this function, so
+    "at most one message report" holds through the end of the process. *)
+Theorem C04_quitmsg_silent : forall s, TlsSwitchTotal.good s ->
+  exists s', TlsClient.quitmsg s = TlsClient.Ret tt s' /\ TlsClient.s_rpt s' = TlsClient.s_rpt s.
+Proof. exact QrConnectProofs.quitmsg_silent. Qed.
+Print Assumptions C04_quitmsg_silent.
+
+(** 12. The code before the fix (Model/QrConnect.v, [..._old]): behind the report of the pinned-host
+    refusal the server answers QUIT with 1500 octets without CRLF and closes: dieerror() under
+    net_read(0) writes a second report.  The code that exists: one. *)
+Theorem C04_quit_refuted :
+  (match @QrConnect.shutdown_clean_old unit QrConnectProofs.W_quit_state with
+   | TlsClient.Exit s => TlsClient.s_rpt s = [GenStarttls.ST_RPT_PINNED; GenStarttls.ST_RPT_DIED] | _ => False end)
+  /\ (match @TlsClient.shutdown_clean unit QrConnectProofs.W_quit_state with
+      | TlsClient.Exit s => TlsClient.s_rpt s = [GenStarttls.ST_RPT_PINNED] | _ => False end).
+Proof. split; [exact QrConnectProofs.unfixed_quit_second_report|exact QrConnectProofs.fixed_quit_one_report]. Qed.
+Print Assumptions C04_quit_refuted.
